@@ -1,7 +1,10 @@
 (* driver: each input line "fn t1 t2 ..." (hexadecimal integers, optional leading '-') -> one output
    line of hexadecimal integers.  Conversion walks the constructors of the extracted binary
    positive directly; no arithmetic is done outside the extracted code. *)
-open Model
+(* no `open Model`: the extracted code defines its own [string]; only these names are needed *)
+type positive = Model.positive = XI of positive | XO of positive | XH
+type z = Model.z = Z0 | Zpos of positive | Zneg of positive
+let dispatch = Model.dispatch
 let hexval c = match c with
   | '0'..'9' -> Char.code c - 48 | 'a'..'f' -> Char.code c - 87 | 'A'..'F' -> Char.code c - 55
   | _ -> failwith "bad hex digit"
